@@ -46,7 +46,9 @@ type Frame struct {
 	defers    []*deferred
 	block     *ssa.BasicBlock
 	prev      *ssa.BasicBlock
-	backEdges int
+	backEdges map[int]int
+	skipPhis  bool
+	mergedInto *ssa.BasicBlock
 	caller    *Frame
 	pos       token.Pos
 }
@@ -388,6 +390,12 @@ func (vm *VM) execFrom(fr *Frame, b *ssa.BasicBlock) Value {
 				next = fr.block.Succs[0]
 			case *ssa.If:
 				c := vm.get(fr, x.Cond).(*Term)
+				if !c.IsConst() && !vm.cfg.NoMerge {
+					if j := vm.tryMerge(fr, c); j != nil {
+						next = j
+						break
+					}
+				}
 				if vm.branch(c) {
 					next = fr.block.Succs[0]
 				} else {
@@ -406,14 +414,141 @@ func (vm *VM) execFrom(fr *Frame, b *ssa.BasicBlock) Value {
 			panic(vm.fail("internal: block %d of %s fell through", fr.block.Index, fr.fn))
 		}
 		if next.Index <= fr.block.Index {
-			fr.backEdges++
-			if fr.backEdges > vm.cfg.Unwind && !vm.inInit {
+			if fr.backEdges == nil {
+				fr.backEdges = map[int]int{}
+			}
+			fr.backEdges[next.Index]++
+			if fr.backEdges[next.Index] > vm.cfg.Unwind && !vm.inInit {
 				panic(&engineError{msg: fmt.Sprintf("unwinding bound %d exceeded in %s (%s)", vm.cfg.Unwind, fr.fn, vm.where())})
 			}
 		}
-		fr.prev = fr.block
+		if fr.mergedInto == next {
+			fr.skipPhis = true
+			fr.mergedInto = nil
+		} else {
+			fr.skipPhis = false
+			fr.prev = fr.block
+		}
 		fr.block = next
 	}
+}
+
+// ---- if-conversion: side-effect-free triangles and diamonds are merged into ite terms ----
+
+func pureInstr(ins ssa.Instruction) bool {
+	switch x := ins.(type) {
+	case *ssa.DebugRef:
+		return true
+	case *ssa.BinOp:
+		switch x.Op {
+		case token.QUO, token.REM, token.SHL, token.SHR:
+			return false
+		}
+		if _, ok := x.X.Type().Underlying().(*types.Basic); !ok {
+			return false
+		}
+		if isString(x.X.Type()) {
+			return x.Op == token.EQL || x.Op == token.NEQ || x.Op == token.LSS || x.Op == token.GTR || x.Op == token.LEQ || x.Op == token.GEQ
+		}
+		return true
+	case *ssa.UnOp:
+		return x.Op == token.NOT || x.Op == token.SUB || x.Op == token.XOR
+	case *ssa.Convert:
+		_, ok1 := x.X.Type().Underlying().(*types.Basic)
+		_, ok2 := x.Type().Underlying().(*types.Basic)
+		return ok1 && ok2 && !isString(x.Type()) && !isString(x.X.Type())
+	case *ssa.ChangeType:
+		return true
+	}
+	return false
+}
+
+// simpleBlock: only pure instructions followed by a Jump; single predecessor.
+func simpleBlock(b *ssa.BasicBlock) (*ssa.BasicBlock, bool) {
+	if len(b.Preds) != 1 || len(b.Instrs) == 0 || len(b.Instrs) > 12 {
+		return nil, false
+	}
+	for _, ins := range b.Instrs[:len(b.Instrs)-1] {
+		if !pureInstr(ins) {
+			return nil, false
+		}
+	}
+	if _, ok := b.Instrs[len(b.Instrs)-1].(*ssa.Jump); !ok {
+		return nil, false
+	}
+	return b.Succs[0], true
+}
+
+func (vm *VM) runPure(fr *Frame, b *ssa.BasicBlock) {
+	for _, ins := range b.Instrs[:len(b.Instrs)-1] {
+		vm.exec(fr, ins)
+	}
+}
+
+// tryMerge returns the join block if the conditional at the end of fr.block was merged.
+func (vm *VM) tryMerge(fr *Frame, c *Term) *ssa.BasicBlock {
+	cur := fr.block
+	T, F := cur.Succs[0], cur.Succs[1]
+	var join *ssa.BasicBlock
+	var fromT, fromF *ssa.BasicBlock // predecessor of join on the true / false side
+	jt, okT := simpleBlock(T)
+	jf, okF := simpleBlock(F)
+	switch {
+	case okT && okF && jt == jf && T != F:
+		join, fromT, fromF = jt, T, F
+	case okT && jt == F:
+		join, fromT, fromF = F, T, cur
+	case okF && jf == T:
+		join, fromT, fromF = T, cur, F
+	default:
+		return nil
+	}
+	if join == cur || join.Index <= cur.Index {
+		return nil // do not merge across back edges
+	}
+	// the join's phis must be scalar
+	var phis []*ssa.Phi
+	for _, ins := range join.Instrs {
+		if ph, ok := ins.(*ssa.Phi); ok {
+			phis = append(phis, ph)
+		} else if _, ok := ins.(*ssa.DebugRef); !ok {
+			break
+		}
+	}
+	for _, ph := range phis {
+		if _, ok := ph.Type().Underlying().(*types.Basic); !ok || isString(ph.Type()) {
+			return nil
+		}
+	}
+	if len(join.Preds) != 2 {
+		return nil
+	}
+	if fromT != cur {
+		vm.runPure(fr, fromT)
+	}
+	if fromF != cur {
+		vm.runPure(fr, fromF)
+	}
+	for _, ph := range phis {
+		var vt, vf Value
+		for i, p := range join.Preds {
+			if p == fromT {
+				vt = vm.get(fr, ph.Edges[i])
+			}
+			if p == fromF {
+				vf = vm.get(fr, ph.Edges[i])
+			}
+		}
+		a, ok1 := vt.(*Term)
+		b, ok2 := vf.(*Term)
+		if !ok1 || !ok2 {
+			return nil
+		}
+		vm.set(fr, ph, mkIte(c, a, b))
+	}
+	vm.P.Merges++
+	fr.mergedInto = join
+	return join
 }
 
 func (vm *VM) args(fr *Frame, vs []ssa.Value) []Value {
@@ -495,6 +630,9 @@ func (vm *VM) exec(fr *Frame, ins ssa.Instruction) {
 		vm.set(fr, x, vm.doCall(fr, &x.Call, x))
 		vm.cur = fr
 	case *ssa.Phi:
+		if fr.skipPhis {
+			return
+		}
 		for i, p := range fr.block.Preds {
 			if p == fr.prev {
 				vm.set(fr, x, vm.get(fr, x.Edges[i]))
@@ -1455,6 +1593,48 @@ func (vm *VM) callBuiltin(b *ssa.Builtin, args []Value, site ssa.Instruction) Va
 			panic(vm.fail("clear on %T", x))
 		}
 		return nil
+	case "SliceData":
+		sl := args[0].(SliceV)
+		if sl.Arr == nil {
+			return PtrV{}
+		}
+		np := make([]int, len(sl.Path)+1)
+		copy(np, sl.Path)
+		np[len(sl.Path)] = sl.Off
+		return PtrV{Obj: sl.Arr, Path: np}
+	case "String":
+		p := args[0].(PtrV)
+		n := vm.concreteInt(args[1].(*Term), "unsafe.String len")
+		if n == 0 {
+			return StrV{}
+		}
+		if p.Obj == nil || len(p.Path) == 0 {
+			panic(vm.fail("unsafe.String on unsupported pointer"))
+		}
+		arr := vm.navigate(p.Obj.Val, p.Path[:len(p.Path)-1]).(*ArrayV)
+		off := p.Path[len(p.Path)-1]
+		b := make([]*Term, n)
+		for i := 0; i < n; i++ {
+			b[i] = arr.E[off+i].(*Term)
+		}
+		return strFromBytes(b)
+	case "StringData":
+		sv := args[0].(StrV)
+		if sv.Len() == 0 {
+			return PtrV{}
+		}
+		bs := vm.byteSliceFromStr(sv)
+		return PtrV{Obj: bs.Arr, Path: []int{0}}
+	case "Slice":
+		p := args[0].(PtrV)
+		n := vm.concreteInt(args[1].(*Term), "unsafe.Slice len")
+		if p.Obj == nil {
+			return SliceV{}
+		}
+		if len(p.Path) == 0 {
+			panic(vm.fail("unsafe.Slice on unsupported pointer"))
+		}
+		return SliceV{Arr: p.Obj, Path: p.Path[:len(p.Path)-1], Off: p.Path[len(p.Path)-1], Len: n, Cap: n}
 	case "ssa:wrapnilchk":
 		if p, ok := args[0].(PtrV); ok && p.Obj == nil {
 			vm.goPanicRuntime("value method called using nil pointer")
